@@ -28,7 +28,7 @@ type Obs struct {
 	Vnp []Run  `json:"vnp"` // visible words of Result.Node outside embed placeholders, canonical runs
 	Ph  []Run  `json:"ph"`  // words inside embed placeholders
 	Hid []Run  `json:"hid"` // words under hidden elements of the output
-	Cmt []Run `json:"cmt"` // words inside comment nodes of the output
+	Cmt []Run  `json:"cmt"` // words inside comment nodes of the output
 
 	MediaKept []bool `json:"mkept"` // per Src.Media entry: is it present in Result.Node
 	NImgOut   int    `json:"nimgout"`
